@@ -130,7 +130,10 @@ func scenario(c cfg) *mcx.Scenario {
 					t := trs[i]
 					vrt.App(fmt.Sprintf("client%d", i), func() {
 						ctx, cancel := vrt.WithTimeout(context.Background(), 120*time.Second)
-						defer cancel()
+						if c.Style != "write" {
+							defer cancel()
+						} // (the blocks that follow a one-way WriteMessage are sent under the request's context: the application keeps it alive - it ends with its 120 s deadline)
+						_ = cancel
 						code := codes.POST
 						if t.up == nil {
 							code = codes.GET
